@@ -28,6 +28,7 @@ mod c18;
 mod resolve;
 mod c06;
 mod c05;
+mod c20;
 
 use engine::{Env, Tier};
 
@@ -135,6 +136,7 @@ fn main() {
         "C18" => c18::run(&env),
         "C06" => c06::run(&env),
         "C05" => c05::run(&env),
+        "C20" => c20::run(&env),
         _ => usage(),
     };
     std::process::exit(code);
